@@ -6,6 +6,8 @@
 //! failure is listed in <out-dir>/translate_report.json).
 mod ir;
 mod maccmd;
+mod maccmd_sets;
+mod maccmd_creators;
 mod phyio;
 mod statics;
 mod tables;
